@@ -246,10 +246,19 @@ func runAPI(args []string) error {
 				if r.Intn(10) == 0 { // a write transaction whose executed branch may be empty
 					q.Succ = nil
 				}
+				if r.Intn(5) == 0 { // predicate-free, put-only, asking for the previous pairs (keys repeat)
+					q.Cmps, q.Fail, q.Succ = nil, nil, nil
+					for i := 2 + r.Intn(3); i > 0; i-- {
+						q.Succ = append(q.Succ, gOp{Kind: 1, K: g.key(), V: g.val(), Prev: true})
+					}
+				}
 			case w < 18:
 				q.Kind, q.R, q.Lin = 0, g.rng(), r.Intn(2) == 0
 			default:
 				q.Kind, q.R, q.Lin = 1, g.rng(), r.Intn(2) == 0
+				if r.Intn(2) == 0 { // a streamed read over everything, cut by a limit
+					q.R.Key, q.R.End, q.R.Limit = []byte{0}, []byte{0}, int64(1+r.Intn(3))
+				}
 			}
 			// the malformed stream
 			if r.Intn(7) == 0 {
